@@ -125,6 +125,19 @@ Ltac plain_leaf Inv :=
 Ltac rr_leaf Inv :=
   eapply mutex_on_setl; [| | |exact Inv]; [split; reflexivity | intros r'; cnt | intros r'; cnt].
 
+Lemma inv_step_counts : forall s n k s1 st sp,
+  inv_step s n k = Some (s1, st, sp) ->
+  s_rrs s1 = s_rrs s /\
+  forall p, (forall l, p (FInvList l) = false) -> (forall r, p (FRunWait r) = false) ->
+    count p (st ++ concat sp) = count p k.
+Proof.
+  intros s n k s1 st sp H. unfold inv_step in H.
+  destruct (Nat.ltb n (length (s_nodes s))); [|discriminate].
+  destruct (n_inv (getN s n)); [inversion H; subst; split; [reflexivity|]; intros; simpl; rewrite app_nil_r; reflexivity|].
+  destruct (n_hinv (getN s n)) as [r|]; [destruct (r_spawn (getr s r))|]; inversion H; subst; clear H;
+    (split; [reflexivity|]); intros p P1 P2; simpl; rewrite ?count_app; simpl; rewrite ?P1, ?P2; simpl; lia.
+Qed.
+
 Lemma step_top_mutex : forall s f rest arg s1 st sp others,
   step_top s f rest arg = Some (s1, st, sp) ->
   mutex_on (s_rrs s) (f :: rest ++ others) ->
@@ -134,13 +147,19 @@ Proof.
   unfold step_top in H.
   destruct f; cbv beta iota zeta in H.
   - (* FInvList *)
-    destruct (memb arg l && Nat.ltb arg (length (s_nodes s))); [|discriminate].
-    destruct (n_inv (getN s arg)).
-    + inversion H; subst; clear H. plain_leaf Inv.
-    + destruct (n_hinv (getN s arg)) as [r|]; [destruct (r_spawn (getr s r))|];
-        inversion H; subst; clear H; simpl; plain_leaf Inv.
+    destruct (memb arg l); [|discriminate].
+    destruct (inv_step_counts _ _ _ _ _ _ H) as [R C]. rewrite R.
+    eapply mutex_on_frames; [| |exact Inv]; intros r';
+      pose proof (C (anchor r') (fun _ => eq_refl) (fun _ => eq_refl)) as C1;
+      pose proof (C (runner r') (fun _ => eq_refl) (fun _ => eq_refl)) as C2;
+      rewrite count_app in C1, C2; simpl in C1, C2; simpl; rewrite ?count_app in *; simpl; lia.
   - inversion H; subst; clear H. plain_leaf Inv.
-  - inversion H; subst; clear H. plain_leaf Inv.
+  - (* FRelEnter *)
+    destruct (inv_step_counts _ _ _ _ _ _ H) as [R C]. rewrite R.
+    eapply mutex_on_frames; [| |exact Inv]; intros r';
+      pose proof (C (anchor r') (fun _ => eq_refl) (fun _ => eq_refl)) as C1;
+      pose proof (C (runner r') (fun _ => eq_refl) (fun _ => eq_refl)) as C2;
+      rewrite count_app in C1, C2; simpl in C1, C2; simpl; rewrite ?count_app in *; simpl; lia.
   - destruct (n_rel (getN s n)); [inversion H; subst; clear H; plain_leaf Inv|].
     destruct (n_hrel (getN s n)) as [[sl|]|]; inversion H; subst; clear H; simpl; plain_leaf Inv.
   - destruct (Nat.eqb (slot_res (upd_node s n (inc_cln (getN s n))) slot) n);
@@ -220,6 +239,7 @@ Proof.
     eapply mutex_on_setl; [split; reflexivity | | | exact Inv]; intros r'; cnt;
       destruct (r_comp (getr s r)); simpl; lia.
   - (* FArm *)
+    destruct (negb (n_inv (getN s c)) && match n_hinv (getN s c) with Some _ => true | None => false end); [discriminate|].
     destruct (g_handle_inv (s_nodes s) c r) as [g fired]. inversion H; subst; clear H. simpl.
     eapply mutex_on_frames; [| |exact Inv]; intros r'; cnt; destruct fired; simpl; lia.
   - (* FUnlock: r.mu.Unlock() *)
@@ -346,6 +366,7 @@ Proof.
   destruct f; cbv beta iota zeta in H; dmatch H;
     repeat match goal with
     | A : do_add_out _ _ _ = Some _ |- _ => apply do_add_out_rrs in A; destruct A as [A _]
+    | A : inv_step _ _ _ = Some _ |- _ => apply inv_step_counts in A; destruct A as [A _]
     | A : do_fail _ _ _ _ = Some _ |- _ => apply do_fail_rrs in A; destruct A as [? [A ?]]
     end;
     unfold getr, with_rr, with_nodes, upd_node, with_slot in *; simpl in *;
@@ -385,6 +406,7 @@ Proof.
     destruct f; cbv beta iota zeta in T; dmatch T;
       repeat match goal with
       | A : do_add_out _ _ _ = Some _ |- _ => apply do_add_out_rrs in A; destruct A as [A _]
+      | A : inv_step _ _ _ = Some _ |- _ => apply inv_step_counts in A; destruct A as [A _]
       | A : do_fail _ _ _ _ = Some _ |- _ => apply do_fail_rrs in A; destruct A as [? [A ?]]
       end;
       unfold with_rr, with_nodes, upd_node, with_slot in *; simpl in *;
